@@ -341,5 +341,14 @@ func c18Items(c *Ctx) []pgen.FItem {
 	add(pgen.FSig{P: []string{"NStr", "string"}, R: []string{"int", "string"}, Mode: "blank"})
 	add(pgen.FSig{P: []string{"float64", "float64"}, R: []string{"int"}, Mode: "named"})
 	add(pgen.FSig{P: []string{"float64"}, R: nil, Mode: "named"})
+	// functions with a trailing error result that fail for some arguments
+	add(pgen.FSig{P: []string{"int"}, R: []string{"string", "error"}, Mode: "named"})
+	add(pgen.FSig{P: []string{"string"}, R: []string{"error"}, Mode: "named"})
+	add(pgen.FSig{P: []string{"[]int", "string"}, R: []string{"SV", "NInt", "error"}, Mode: "unnamed"})
+	add(pgen.FSig{P: []string{"*SV"}, R: []string{"[]string", "error"}, Mode: "blank"})
+	add(pgen.FSig{P: nil, R: []string{"int", "error"}, Mode: "named"})
+	add(pgen.FSig{P: []string{"NStr", "float64", "bool"}, R: []string{"error"}, Mode: "reserved"})
+	// functions that recurse through their own memoized form
+	items = append(items, pgen.MemReentrantItem("QR1", "int"), pgen.MemReentrantItem("QR2", "string"))
 	return items
 }
